@@ -433,7 +433,10 @@ def _canon(x, run):
     try:
         return ("lru", tuple(_canon(k, run) for k in list(x.keys())), repr(list(getattr(x, "order", ()))))
     except Exception:
-        return repr(x)
+        return _ADDR.sub("", repr(x))        # (an object's address is not part of the state)
+
+
+_ADDR = __import__("re").compile(r" at 0x[0-9a-f]+")
 
 
 def bfs(prog, alphabet, depth, mode, max_states=None):
